@@ -3,6 +3,7 @@ package planner
 import (
 	"encoding/json"
 	"fmt"
+	"sort"
 	"strings"
 
 	"github.com/buildbuildio/pebbles/common"
@@ -67,9 +68,23 @@ func (sf ScrubFields) Clean(payload map[string]interface{}) {
 		return
 	}
 
-	for key, fields := range sf {
+	// cleaning a path can empty an object and remove it from it's parent, so the result depends on
+	// the order: nested paths go first, the rest is alphabetical - not the order of the map
+	keys := make([]string, 0, len(sf))
+	for key := range sf {
+		keys = append(keys, key)
+	}
+	sort.Slice(keys, func(i, j int) bool {
+		di, dj := strings.Count(keys[i], "."), strings.Count(keys[j], ".")
+		if di != dj {
+			return di > dj
+		}
+		return keys[i] < keys[j]
+	})
+
+	for _, key := range keys {
 		path := sf.unhash(key)
-		sf.clean(payload, path, fields)
+		sf.clean(payload, path, sf[key])
 	}
 
 	return
